@@ -206,7 +206,7 @@ pub fn c11(ctx: &mut Ctx) {
     // spaces above compare with the model)
     {
         let hd = ctx.tier.pick(3u32, 4u32);
-        ctx.bound("iterator histories", format!("compounds of all tile sequences of length 1..=3 over the menu: all call sequences of length <= {} over {{next, nth(0), nth(1), nth(2), nth(7), take(2).count()}} x 4 endings", hd));
+        ctx.bound("iterator histories", format!("compounds of all tile sequences of length 1..=3 over the menu: all call sequences of length <= {} over {{next, nth(0), nth(1), nth(2), nth(7), take(2).count()}} x 10 endings, size_hint() after every call", hd));
         let n3 = seq_count(KINDS, 3) - 1;
         ctx.run_space("iterator-histories", n3, |idx, l| {
             let seq = seq_decode(KINDS, idx + 1);
